@@ -51,14 +51,16 @@ Block(e, i, r) ==      \* r-th digit block (0-based r) of mask column i (1-based
 RowCol(e, r, i, co) == LET ct == e.key[r][i] IN [c \in 1..NN(e) |-> TorusInt(ct.d[co], e.bkey, c) % Pow2(KeyBits(e))]
 BodyCut(e) == LET col == [j \in 1..e.skey |-> IF j <= e.a.size THEN e.a.d[1][j] ELSE PZero(NN(e))]
               IN [c \in 1..NN(e) |-> TorusInt(col, e.bkey, c) % Pow2(KeyBits(e))]
-ExpBig(e, co) ==
+\* bc: the column the (cut) body of the input is added to -- 1 for a key-switch, j+1 for the row expansion of a GGSW
+ExpBigAt(e, co, bc) ==
   LET M == Pow2(KeyBits(e))
       RECURSIVE Sum(_, _)
       Sum(i, r) == IF i > e.rin THEN PZero(NN(e))
                    ELSE IF r >= RUsed(e) THEN Sum(i + 1, 0)
                    ELSE PAdd(NegacyclicMulMod(Block(e, i, r), RowCol(e, r + 1, i, co), M), Sum(i, r + 1))
       g == Sum(1, 0)
-  IN [c \in 1..NN(e) |-> ((IF co = 1 THEN BodyCut(e)[c] ELSE 0) + g[c]) % M]
+  IN [c \in 1..NN(e) |-> ((IF co = bc THEN BodyCut(e)[c] ELSE 0) + g[c]) % M]
+ExpBig(e, co) == ExpBigAt(e, co, 1)
 
 \* slack of the "ignore the last dsize-2 limbs of the partial products" optimisation, in units of the key's last limb
 DropSlackKey(e) ==
@@ -77,15 +79,16 @@ ToOutUlps(x, fromBits, toBits) ==
 NearOK(D, A, E, ob, base, slack) ==
   IF E >= 0 THEN (IF E >= ob THEN CycDist(D, 0, Pow2(ob)) <= slack ELSE CycDist(D, (A * Pow2(E)) % Pow2(ob), Pow2(ob)) <= slack)
   ELSE TorusShiftOK(D, A, E, ob, base + slack)
-ExactOK(e, res) ==
+ExactAtOK(e, res, bc) ==
   LET ob == OutBits(res)
       base == IF res.b = e.bkey THEN 1 ELSE 2
       slack == ToOutUlps(DropSlackKey(e), KeyBits(e), ob)
   IN /\ res.rank = e.rout
      /\ \A co \in 1..(e.rout + 1) :
-          LET want == ExpBig(e, co) IN
+          LET want == ExpBigAt(e, co, bc) IN
           \A c \in 1..NN(e) :
             NearOK(TorusInt(res.d[co], res.b, c), CMod(want[c], Pow2(KeyBits(e))), ob - KeyBits(e), ob, base, slack)
+ExactOK(e, res) == ExactAtOK(e, res, 1)
 
 \* ---- the user-level statement: same plaintext under the new key, noise within the gadget-product bound
 \* noise of ONE gadget product whose (key-radix) input has asz limbs, in units of 2^-ob
